@@ -762,15 +762,30 @@ func (p *Prog) isLastBlock(fn *ssa.Function, pl payload, T string) (bool, string
 			sb = c.sigmaVal
 		}
 	}
-	ph, ok := sb.(*ssa.Phi)
-	if !ok || len(ph.Edges) != 2 {
+	// the selection: a two-way phi in this function, or a helper method of the token that returns the block
+	type leaf struct {
+		d  string
+		gs []guard
+	}
+	var leaves []leaf
+	if ph, ok := sb.(*ssa.Phi); ok && len(ph.Edges) == 2 {
+		for i, e := range ph.Edges {
+			leaves = append(leaves, leaf{p.D(e), guardsOnEdge(ph.Block().Preds[i], ph.Block())})
+		}
+	} else if c, ok := sb.(*ssa.Call); ok && c.Call.StaticCallee() != nil && p.isRepoFunc(c.Call.StaticCallee()) && len(c.Call.Args) == 1 && p.D(c.Call.Args[0]) == T {
+		h := c.Call.StaticCallee()
+		T = h.Params[0].Name()
+		for _, ret := range returnsOf(h) {
+			leaves = append(leaves, leaf{p.D(retVal(ret, 0)), guardsOf(ret.Block())})
+		}
+	}
+	if len(leaves) != 2 {
 		return false, "the sealed block " + pl.sigma + " is not selected as 'authority if there are no blocks, else the last block'"
 	}
 	sawAuth, sawLast := false, false
-	for i, e := range ph.Edges {
-		pred := ph.Block().Preds[i]
-		d := p.D(e)
-		gs := guardsOnEdge(pred, ph.Block())
+	for _, lf := range leaves {
+		d := lf.d
+		gs := lf.gs
 		zero := func(want bool) bool {
 			for _, g := range gs {
 				bo, ok := g.cond.(*ssa.BinOp)
@@ -879,6 +894,10 @@ func ruleSigGate(p *Prog, r *Reporter) {
 }
 
 func lenGuardD(p *Prog, gs []guard, d string, n int64) bool {
+	return lenGuardDepth(p, gs, d, n, 0)
+}
+
+func lenGuardDepth(p *Prog, gs []guard, d string, n int64, depth int) bool {
 	want := "len(" + d + ")"
 	for _, g := range gs {
 		bo, ok := g.cond.(*ssa.BinOp)
@@ -886,11 +905,51 @@ func lenGuardD(p *Prog, gs []guard, d string, n int64) bool {
 			continue
 		}
 		c, isC := constInt(bo.Y)
-		if !isC || c != n || p.D(bo.X) != want {
+		if isC && c == n && p.D(bo.X) == want {
+			if (bo.Op == token.EQL && g.val) || (bo.Op == token.NEQ && !g.val) {
+				return true
+			}
 			continue
 		}
-		if (bo.Op == token.EQL && g.val) || (bo.Op == token.NEQ && !g.val) {
-			return true
+		// the success edge of a helper that holds the gate: `x, err := helper(base); err == nil`
+		if depth > 1 || !isNilConst(bo.Y) || !((bo.Op == token.NEQ && !g.val) || (bo.Op == token.EQL && g.val)) {
+			continue
+		}
+		ex, isE := bo.X.(*ssa.Extract)
+		if !isE || !isErrorType(ex.Type()) {
+			continue
+		}
+		call, isC2 := ex.Tuple.(*ssa.Call)
+		if !isC2 {
+			continue
+		}
+		h := call.Call.StaticCallee()
+		if h == nil || !p.isRepoFunc(h) || h.Blocks == nil {
+			continue
+		}
+		for i, a := range call.Call.Args {
+			if i >= len(h.Params) {
+				break
+			}
+			base := p.D(a)
+			if !strings.HasPrefix(d, base+".") {
+				continue
+			}
+			suffix := strings.TrimPrefix(d, base)
+			all := true
+			nOK := 0
+			for _, ret := range returnsOf(h) {
+				if isErrorReturn(ret) {
+					continue
+				}
+				nOK++
+				if !lenGuardDepth(p, guardsOf(ret.Block()), h.Params[i].Name()+suffix, n, depth+1) {
+					all = false
+				}
+			}
+			if all && nOK > 0 {
+				return true
+			}
 		}
 	}
 	return false
